@@ -144,6 +144,10 @@ def shards(tier, seed):
     for i in range(2):
         add(f"float{i}", mode="float", auto_reduce=i == 1, trees=int(n * 1.5), depth=4 if big and i == 0 else 3)
     add("decimal0", mode="decimal", auto_reduce=False, trees=n, depth=3)
+    # operators never consult contexts (only explicit conversions do): with the spectroscopy context
+    # active, + - and comparisons between wavelength, frequency, wavenumber and energy still refuse
+    add("context-exact", mode="fraction", auto_reduce=False, trees=n, depth=2, context="sp")
+    add("context-float", mode="float", auto_reduce=False, trees=n, depth=2, context="sp")
     for i in range(2):
         add(f"ndarray{i}", mode="ndarray", auto_reduce=i == 1, trees=n, depth=3)
     return out
@@ -371,6 +375,10 @@ def _model_bin(op, a, b, cx):
         return ok(MV(v, dims, a.bare and b.bare, e))
     if op in ("//", "%", "divmod"):
         if a.dims != b.dims:
+            if getattr(cx, "context", None):
+                # these operators convert the right operand with .to(), which honours active
+                # contexts; the statement only demands refusal of + - and ordering
+                return skip("floor-division-converts-through-the-active-context")
             return merr("any")
         if nan:
             return skip("nan-in-floor-division")
@@ -2039,6 +2047,7 @@ def run_shard(spec, rec):
     sys.set_int_max_str_digits(1000000)     # operand fingerprints repr() Fractions of generated registries
     rng = random.Random(spec["seed"])
     cx = Cx(spec["mode"])
+    cx.context = spec.get("context")
     lines = install_line_observer(pint)
     nit = {"fraction": F, "decimal": Decimal}.get(spec["mode"], float)
     kw = dict(non_int_type=nit)
@@ -2106,6 +2115,14 @@ def run_shard(spec, rec):
         exact_only = cx.mode in ("fraction", "decimal")
         names = [c for c in gen.canonical_units(m, exact_only=exact_only)
                  if m.root(c)[0].f() > 0 and chain_positive(m, c)]
+        if spec.get("context"):
+            ureg.enable_contexts(spec["context"])
+            # wavelength, frequency, wavenumber, energy: every pair is connected by the context
+            bridged = [{"[length]": 1}, {"[time]": -1}, {"[length]": -1},
+                       {"[mass]": 1, "[length]": 2, "[time]": -2}]
+            names = [c for c in names if {k: int(v) for k, v in m.root(c)[2].items() if v == int(v)} in bridged
+                     and all(v == int(v) for v in m.root(c)[2].values())]
+            rec.count("context_pool_units", len(names))
         one_registry(ureg, m, names, spec["trees"], spec["name"])
 
     if lines is not None:
